@@ -334,7 +334,7 @@ func (r *rig) evalSession(res *scResult, s *session, o *outcome, mustSucceed boo
 		// only when it fails in every attempt.
 		o.disturbed = true
 		res.count("honest session ended with error (retried)", 1)
-		V("honest-session-failed", fmt.Sprintf("all peers answered truthfully and in time, nobody asked to stop, yet the session ended with error %s in each of 3 attempts (max reply lag %v)", errStr(o.err), s.maxLag))
+		V("honest-session-failed", fmt.Sprintf("all peers answered truthfully and in time, nobody asked to stop, yet the session ended with error %s in the loaded run and in each of 3 re-runs on an idle process (max reply lag %v)", errStr(o.err), s.maxLag))
 	}
 }
 
@@ -370,16 +370,25 @@ func trimErr(e error) string {
 
 // ---- one scenario: faulty session, stale messages while idle, honest follow-up ----------------------
 
-func runScenario(sc *Scenario) *scResult {
+// runScenario: one attempt under full parallel load.  An honest session that ends with an error (which the
+// statement allows, and which CPU starvation of the syncer's real timers can cause) is not judged here: the
+// scenario is flagged and re-run by the child on an otherwise idle process (runQuiet).
+func runScenario(sc *Scenario) (*scResult, bool) {
+	res, disturbed := runScenarioOnce(sc)
+	res.Attempts = 1
+	return res, disturbed
+}
+
+func runQuiet(sc *Scenario) *scResult {
 	var res *scResult
-	for attempt := 1; attempt <= 3; attempt++ {
+	for attempt := 2; attempt <= 4; attempt++ {
 		var disturbed bool
 		res, disturbed = runScenarioOnce(sc)
 		res.Attempts = attempt
 		if !disturbed {
 			return res
 		}
-		time.Sleep(200 * time.Millisecond)
+		time.Sleep(100 * time.Millisecond)
 	}
 	res.Viols = append(res.Viols, res.honestFail...)
 	return res
@@ -515,6 +524,7 @@ func childMain(args []string) {
 		os.Exit(4)
 	}
 	var mu sync.Mutex
+	var quiet []*Scenario
 	w := bufio.NewWriter(out)
 	ch := make(chan *Scenario)
 	var wg sync.WaitGroup
@@ -523,12 +533,16 @@ func childMain(args []string) {
 		go func() {
 			defer wg.Done()
 			for sc := range ch {
-				res := runScenario(sc)
-				j, _ := json.Marshal(res)
+				res, again := runScenario(sc)
 				mu.Lock()
-				w.Write(j)
-				w.WriteByte('\n')
-				w.Flush()
+				if again {
+					quiet = append(quiet, sc)
+				} else {
+					j, _ := json.Marshal(res)
+					w.Write(j)
+					w.WriteByte('\n')
+					w.Flush()
+				}
 				mu.Unlock()
 			}
 		}()
@@ -538,6 +552,12 @@ func childMain(args []string) {
 	}
 	close(ch)
 	wg.Wait()
+	for _, sc := range quiet { // one at a time, nothing else running in this process
+		j, _ := json.Marshal(runQuiet(sc))
+		w.Write(j)
+		w.WriteByte('\n')
+		w.Flush()
+	}
 	out.Close()
 	os.Exit(0)
 }
@@ -577,8 +597,8 @@ func main() {
 	} else {
 		list = genScenarios(c.Rand("scenarios"), c.Quick(), skip)
 	}
-	nchild := c.Pick(6, 14)
-	workers := c.Pick(4, 6)
+	nchild := c.Pick(6, 10)
+	workers := c.Pick(4, 4)
 	if len(list) < nchild {
 		nchild = len(list)
 	}
@@ -684,7 +704,7 @@ func main() {
 	c.Set("timing", map[string]string{"fetch_timeout": fetchTimeout.String(), "hash_timeout": hashTimeout.String(), "sched_tick": schedTick.String(),
 		"stall_rule": fmt.Sprintf("%d silent ticks of %v", stallTicks, driverTick), "watchdog": watchdog.String()})
 	c.Finish("every recorded session history satisfies: ancestor on both chains (highest after a failed anchor comparison / full scan); AddBlock submissions contiguous from ancestor+1, each the child of the previous, never beyond target, no duplicate; exactly one final notification, success only with the target delivered; no stall; honest follow-up session completes exactly, also under previous-sequence messages",
-		c.Pick(300, 2000),
+		c.Pick(300, 4000),
 		"peers are modelled at the syncer's requester boundary (message.* values), i.e. what the p2p receivers would hand over, plus malformed variants they would filter",
 		"the chain service is a model: it connects a block iff its parent is on the model main chain; what the real chain does with a submitted block is out of scope",
 		"time is real (the syncer uses real timers): fetch timeout 200ms, hash fetcher timeout 500ms via verif hook; a stall is 50 consecutive 100ms driver ticks without any emission and without outstanding reply; the 60s wall watchdog only yields inconclusive",
